@@ -205,4 +205,129 @@ fn c13_interval_text__format_then_parse_is_identity__nat() {
 //@fn functions/cast/format.rs impl Formatter for IntervalFormatter :: write
 //@fn functions/cast/parse.rs impl Parser for IntervalParser :: parse
 
+// C13 / C15 (bounded stand-in, native; NOT a proof): text -> DECIMAL with a NEGATIVE scale (DECIMAL(p, -k) stores
+// multiples of 10^k; the parser and the resolver admit any i8 scale).  For scales -128, -127, -39, -38, -19, -18, -5, -2,
+// -1, precisions 1, 3, 18, 38 and 14 digit strings (fewer digits than the scale drops, exactly as many, more; signs; a
+// fraction; a string longer than the storage type) `DecimalParser::parse` returns a value or None without panicking
+// (no underflow of the digit count, no overflow of the divisor), and a returned value v stands for v * 10^k within one
+// unit of 10^k of the text's value.
+#[test]
+fn c13c15_decimal_text__negative_scales_value_or_none_never_panic__nat() {
+    let texts = ["0", "5", "50", "149", "150", "-150", "+199", "12345", "99999", "1.5", "250.75", "-0.4", "123456789012345678", "99999999999999999999999999999999999999999"];
+    let mut cases = 0usize;
+    let mut values = 0usize;
+    for s in [-128i8, -127, -39, -38, -19, -18, -5, -2, -1] {
+        for p in [1u8, 3, 18, 38] {
+            for text in texts {
+                let r64 = std::panic::catch_unwind(|| DecimalParser::<i64>::new(p, s).parse(text));
+                let r128 = std::panic::catch_unwind(|| DecimalParser::<i128>::new(p, s).parse(text));
+                let what = format!("CAST('{text}' AS DECIMAL({p}, {s}))");
+                let (v64, v128) = match (r64, r128) {
+                    (Ok(a), Ok(b)) => (a, b),
+                    _ => panic!("parsing a decimal with a negative scale panics: {what}"),
+                };
+                // the value the text denotes, when it fits f64 comfortably (all family members except the last do)
+                if let Ok(t) = text.parse::<f64>() {
+                    let k = s.unsigned_abs() as i32;
+                    for v in [v64.map(|v| v as f64), v128.map(|v| v as f64)].into_iter().flatten() {
+                        values += 1;
+                        if k <= 30 && t.abs() < 1e30 {
+                            let unit = 10f64.powi(k);
+                            assert!((v * unit - t).abs() <= unit * 1.000001, "{what} gives {v} x 10^{k}, more than one unit of 10^{k} away from {t}");
+                        } else {
+                            assert!(v == 0.0 || t.abs() >= 1e30, "{what} gives {v} x 10^{k} for a text worth {t}");
+                        }
+                    }
+                }
+                cases += 1;
+            }
+        }
+    }
+    assert!(cases == 9 * 4 * 14 && values > 100);
+}
+
+// C13 (bounded stand-in, native; NOT a proof): TIMESTAMP -> text names the instant the value stands for, in every unit.
+// For seconds, milliseconds, microseconds and nanoseconds and ~60 tick counts per unit (0, +-1, +-999, +-1000, +-1001,
+// +-1200, half seconds, day and year boundaries before and after 1970, leap days, 0001-01-01, 9999-12-31) the
+// formatter's text equals the civil date and time computed independently (floor division of the tick count, days ->
+// civil date by the proleptic Gregorian calendar) with the fraction printed as 0, 3, 6 or 9 digits.
+#[test]
+fn c13_timestamp_text__names_the_instant_in_every_unit__nat() {
+    use crate::functions::cast::format::{
+        Formatter,
+        TimestampMicrosecondsFormatter,
+        TimestampMillisecondsFormatter,
+        TimestampNanosecondsFormatter,
+        TimestampSecondsFormatter,
+    };
+    // days since 1970-01-01 -> (year, month, day), proleptic Gregorian
+    fn civil(z: i64) -> (i64, i64, i64) {
+        let z = z + 719_468;
+        let era = z.div_euclid(146_097);
+        let doe = z.rem_euclid(146_097);
+        let yoe = (doe - doe / 1460 + doe / 36_524 - doe / 146_096) / 365;
+        let y = yoe + era * 400;
+        let doy = doe - (365 * yoe + yoe / 4 - yoe / 100);
+        let mp = (5 * doy + 2) / 153;
+        let d = doy - (153 * mp + 2) / 5 + 1;
+        let m = if mp < 10 { mp + 3 } else { mp - 9 };
+        (if m <= 2 { y + 1 } else { y }, m, d)
+    }
+    fn expected(ticks: i64, per_sec: i64) -> String {
+        let secs = ticks.div_euclid(per_sec);
+        let nanos = ticks.rem_euclid(per_sec) * (1_000_000_000 / per_sec);
+        let (y, mo, d) = civil(secs.div_euclid(86_400));
+        let sod = secs.rem_euclid(86_400);
+        let frac = if nanos == 0 {
+            String::new()
+        } else if nanos % 1_000_000 == 0 {
+            format!(".{:03}", nanos / 1_000_000)
+        } else if nanos % 1_000 == 0 {
+            format!(".{:06}", nanos / 1_000)
+        } else {
+            format!(".{:09}", nanos)
+        };
+        format!("{y:04}-{mo:02}-{d:02} {:02}:{:02}:{:02}{frac} UTC", sod / 3600, (sod / 60) % 60, sod % 60)
+    }
+    let mut cases = 0usize;
+    for (unit, per_sec) in [("s", 1i64), ("ms", 1_000), ("us", 1_000_000), ("ns", 1_000_000_000)] {
+        let mut ticks: Vec<i64> = vec![0, 1, -1, 999, -999, 1000, -1000, 1001, -1001, 1200, -1200, 1500, -1500, 123_456_789, -123_456_789];
+        for secs in [
+            0i64, 1, -1, 59, -59, 60, -60, 86_399, -86_399, 86_400, -86_400, -86_401, 951_782_400 /* 2000-02-29 */, 951_868_799, 1_709_164_800 /* 2024-02-29 */,
+            -2_208_988_800 /* 1900-01-01 */, -2_203_891_200 /* 1900-03-01 */, -62_135_596_800 /* 0001-01-01 */, 253_402_300_799 /* 9999-12-31 23:59:59 */, -11_644_473_600, 4_102_444_800,
+        ] {
+            if let Some(t) = secs.checked_mul(per_sec) {
+                ticks.push(t);
+                for off in [1i64, -1, per_sec / 2, -(per_sec / 2), per_sec / 5, -(per_sec / 5)] {
+                    if off != 0 {
+                        if let Some(t2) = t.checked_add(off) {
+                            ticks.push(t2);
+                        }
+                    }
+                }
+            }
+        }
+        ticks.sort();
+        ticks.dedup();
+        for t in ticks {
+            let secs = t.div_euclid(per_sec);
+            if !(-62_135_596_800..=253_402_300_799).contains(&secs) {
+                continue; // years 1..=9999 only
+            }
+            let mut got = String::new();
+            let ok = match unit {
+                "s" => TimestampSecondsFormatter::default().write(&t, &mut got),
+                "ms" => TimestampMillisecondsFormatter::default().write(&t, &mut got),
+                "us" => TimestampMicrosecondsFormatter::default().write(&t, &mut got),
+                _ => TimestampNanosecondsFormatter::default().write(&t, &mut got),
+            };
+            let want = expected(t, per_sec);
+            assert!(ok.is_ok(), "formatting TIMESTAMP({unit}) {t} failed, it stands for {want}");
+            assert!(got == want, "TIMESTAMP({unit}) value {t} is printed as `{got}`, the instant it stands for is `{want}`");
+            cases += 1;
+        }
+    }
+    assert!(cases > 300, "{cases}");
+}
+
 include!("/verif/build/kani-gen/cast_parse.playback.rs");
